@@ -243,6 +243,11 @@ theorem reach_inv3 (n : Net) (s0 s : State) (hwf : WF s0) (h0 : Inv3 n s0) (hr :
   | init => exact ⟨hwf, h0⟩
   | step a u _ _ ih => exact ⟨perform_wf n _ a u ih.1, inv3_perform n _ a u ih.1 ih.2⟩
 
+theorem reach_inv_wf (n : Net) (s0 s : State) (hwf : WF s0) (hr : Reach n s0 s) : WF s := by
+  induction hr with
+  | init => exact hwf
+  | step a u _ _ ih => exact perform_wf n _ a u ih
+
 theorem find_map {s : State} {f : Row → Row} (hf : ∀ r, (f r).addr = r.addr) (t : Addr) :
     (s.map f).find? (fun r => r.addr == t) = (s.find? (fun r => r.addr == t)).map f := by
   induction s with
